@@ -155,7 +155,8 @@ impl Table for Cedt {
     fn sweeps(&self, _level: u8) -> Vec<(String, Vec<Op>)> {
         let mut v = vec![];
         let hb = Op::new(C_CHBS, 0, 2);
-        for n in 0..=255u16 {
+        // across the limit of the one-byte count (255): 256..=300 may be refused, and must be right if accepted
+        for n in 0..=300u16 {
             v.push((format!("cxims[{} maps]", n), vec![hb, Op::new(C_CXIMS, n, if n % 2 == 0 { 2 } else { 1 }), Op::new(C_CFMWS, cfmws_shape(1, 0x1f), 2)]));
         }
         let wnd = |base: u64, size: u64, ways: u16, restr: u16| Op { k: C_CFMWS, shape: cfmws_shape(ways, restr), fill: Fill::b(2).with(0, base).with(1, size) };
@@ -181,6 +182,25 @@ impl Table for Cedt {
                     }
                 }
                 C_CFMWS => t.add_fixed_memory(real_cfmws(f, op.shape)),
+                C_CXIMS if op.shape > 255 => {
+                    // more bitmaps than the one-byte count can hold: the crate may refuse (building the record or adding it);
+                    // if it accepts, the record is judged like any other
+                    let r = crate::util::catch(|| {
+                        let mut x = cedt::XorInterleaveMath::new(gran(f.e(0, 7)));
+                        for n in 0..op.shape {
+                            x.add_xormap(f.u64(1 + (n % 8) as u8).wrapping_add(n as u64 / 8));
+                        }
+                        x
+                    });
+                    match r {
+                        Ok(x) => {
+                            if crate::util::catch(std::panic::AssertUnwindSafe(|| t.add_xor_interleave_math(x))).is_err() {
+                                crate::seq::note_refused(i);
+                            }
+                        }
+                        Err(_) => crate::seq::note_refused(i),
+                    }
+                }
                 C_CXIMS => {
                     let mut x = cedt::XorInterleaveMath::new(gran(f.e(0, 7)));
                     for n in 0..op.shape {
